@@ -1,4 +1,4 @@
-import BipVerif.Model.Kholaw
+import BipVerif.Model.Bip44
 namespace BipVerif.Props.C04
 theorem placeholder : True := trivial
 end BipVerif.Props.C04
